@@ -3,7 +3,7 @@
 From Coq Require Import List ZArith NArith Bool.
 From Coq.Strings Require Import Byte.
 Import ListNotations.
-From BWTable Require Import Cells Fmt StrOrder Sort SortProofs SortSpec Limit Reduce ReduceSpec.
+From BWTable Require Import Cells Fmt StrOrder Sort SortProofs SortSpec Limit Reduce ReduceSpec Expr ExprSpec.
 Open Scope Z_scope.
 
 (* the repairs applied to /repo so far (the model follows the CURRENT tree) *)
@@ -317,5 +317,97 @@ Definition e2e11_verdict (group_by : list binding) (projs : list proj) (bs : lis
       | _ => v
       end
   end.
+
+(* ---- HAVING ---------------------------------------------------------------------------------------------------- *)
+Definition cop_eqb (a b : cop) : bool := match a, b with OLt, OLt | OGt, OGt | OEq, OEq => true | _, _ => false end.
+Definition pconst_eqb (a b : parsed_const) : bool :=
+  match a, b with
+  | PCError, PCError | PCNil, PCNil => true
+  | PC v c, PC v' c' => litval_eqb v v' && str_eqb c c'
+  | _, _ => false
+  end.
+Definition optz_eqb (a b : option Z) : bool :=
+  match a, b with Some x, Some y => Z.eqb x y | None, None => true | _, _ => false end.
+Fixpoint expr_eqb (a b : expr) : bool :=
+  match a, b with
+  | EBind o l r, EBind o' l' r' => cop_eqb o o' && N.eqb l l' && N.eqb r r'
+  | ELit o l c, ELit o' l' c' => cop_eqb o o' && N.eqb l l' && pconst_eqb c c'
+  | ENode o l t, ENode o' l' t' | EPred o l t, EPred o' l' t' => cop_eqb o o' && N.eqb l l' && str_eqb t t'
+  | ETime o l t, ETime o' l' t' => cop_eqb o o' && N.eqb l l' && optz_eqb t t'
+  | ENot x, ENot y => expr_eqb x y
+  | EAnd x y, EAnd x' y' | EOr x y, EOr x' y' => expr_eqb x x' && expr_eqb y y'
+  | _, _ => false
+  end.
+
+(* result codes per row: 0 false, 1 true, 2 error, 3 panic *)
+Definition res_code (r : res bool) : N :=
+  match r with Ok false => 0%N | Ok true => 1%N | Err _ => 2%N | Panic _ => 3%N | Fatal => 4%N end.
+Fixpoint codes_eqb (a b : list N) : bool :=
+  match a, b with
+  | [], [] => true
+  | x :: a', y :: b' => N.eqb x y && codes_eqb a' b'
+  | _, _ => false
+  end.
+
+(* does the value semantics disagree with the model on some row (where both are defined) *)
+Definition spec_disagrees (e : expr) (rows : list row) : bool :=
+  existsb (fun r => match eval e r, spec_eval e r with
+                    | Ok b, Some b' => negb (Bool.eqb b b')
+                    | _, _ => false
+                    end) rows.
+
+(* the builder rejects a token list whose grammar derivation has a boolean meaning *)
+Definition rejected_but_meaningful (ts : list tok) : bool :=
+  match new_evaluator ts, derivation_of ts with
+  | Err _, Some h => match denote h with Some _ => true | None => false end
+  | _, _ => false
+  end.
+(* the builder's tree differs from the one the derivation denotes (never expected: theorem) *)
+Definition tree_differs (ts : list tok) : bool :=
+  match new_evaluator ts, derivation_of ts with
+  | Ok e, Some h => match denote h with Some e' => negb (expr_eqb e e') | None => true end
+  | _, _ => false
+  end.
+
+(* build outcome: 0 ok, 1 error, 2 panic *)
+Definition expr_verdict (ts : list tok) (outcome : N) (tree : option expr) (rows : list row) (results : list N) : N :=
+  let agree :=
+    match new_evaluator ts, outcome, tree with
+    | Ok e, 0%N, Some t => expr_eqb e t && codes_eqb (map (fun r => res_code (eval e r)) rows) results
+    | Err _, 1%N, _ => true
+    | Panic _, 2%N, _ => true
+    | _, _, _ => false
+    end in
+  if negb agree then 2%N
+  else if tree_differs ts then 9%N
+  else if rejected_but_meaningful ts then 7%N
+  else match new_evaluator ts with
+       | Ok e => if spec_disagrees e rows then 4%N else 0%N
+       | _ => 0%N
+       end.
+
+(* HAVING through the planner; outcome: 0 ok, 1 rejected at parse time, 2 execution error, 3 panic *)
+Definition e2e13_verdict (ts : list tok) (bs : list binding) (base : list row) (exact : bool)
+    (outcome : N) (out : list row) : N :=
+  let agree :=
+    match new_evaluator ts with
+    | Ok e =>
+        match having (Some e) base, outcome with
+        | Ok kept, 0%N => if exact then rows_agree bs kept out else multiset_agree bs kept out
+        | Err _, 2%N => true
+        | Panic _, 3%N => true
+        | _, _ => false
+        end
+    | Err _ => N.eqb outcome 1
+    | _ => false
+    end in
+  if negb (rows_fmt_ok base) then 3%N
+  else if negb agree then 2%N
+  else if tree_differs ts then 9%N
+  else if rejected_but_meaningful ts then 7%N
+  else match new_evaluator ts with
+       | Ok e => if spec_disagrees e base then 4%N else 0%N
+       | _ => 0%N
+       end.
 
 Definition verdicts {A} (f : A -> N) (l : list A) : list N := map f l.
